@@ -374,8 +374,45 @@ def run_tracer_case(case):
     return out
 
 
+@robust()
+def run_special_targets_case(case):
+    """Aliases may name any variable of the model: the solution-tracking series, and variables added after construction."""
+    out = []
+    amap = {'st': 'status', 'it': 'iterations', 'late': 'Wlate', 'later': 'late'}
+    try:
+        cls = type('AliasedSpecial', (AliasMixin, _BASE), {'ALIASES': dict(amap)})
+        m = cls(list(SPAN), **INIT)
+        twin = _BASE(list(SPAN), **INIT)
+    except Exception as e:
+        return [('special-targets:constructor:%s' % type(e).__name__, 'constructs', repr(e)[:160], 'a model whose aliases name status / iterations / a variable added later cannot be constructed')]
+    for o in (m, twin):
+        o.add_variable('Wlate', [1.0, 2.0, 3.0, 4.0])
+    try:
+        m.it[1] = 7
+        m['st', SPAN[2]] = 'E'
+        m.later[0] = -5.0
+        m['late', SPAN[1]:SPAN[2]] = 9.0
+        twin.iterations[1] = 7
+        twin['status', SPAN[2]] = 'E'
+        twin.Wlate[0] = -5.0
+        twin['Wlate', SPAN[1]:SPAN[2]] = 9.0
+        same_reads = all(canon(np.asarray(getattr(m, a))) == canon(np.asarray(twin[c])) and canon(np.asarray(m[a])) == canon(np.asarray(twin[c]))
+                         for a, c in (('st', 'status'), ('it', 'iterations'), ('late', 'Wlate'), ('later', 'Wlate')))
+    except Exception as e:
+        return [('special-targets:access:%s' % type(e).__name__, 'as the variable', repr(e)[:160], 'access through an alias of status / iterations / a later variable failed')]
+    if state(m) != state(twin) or not same_reads:
+        out.append(('special-targets:effect', 'same as on the variable', 'differs', 'an alias of status / iterations / a later variable does not behave like it'))
+    return out
+
+
 def run_block(block, tier, seed):
     acc = Acc()
+    if block['lo'] == 0:
+        case = {'special_targets': True}
+        acc.evaluations += 1
+        acc.nontrivial += 1
+        for key, exp, obs, what in run_special_targets_case(case):
+            acc.violation(key, case, exp, obs, what)
     for amap in maps()[block['lo']:block['hi']]:
         acc.states += 1
         tcase = {'amap': amap, 'tracer': True}
@@ -462,6 +499,8 @@ def run_block(block, tier, seed):
 def run_one(case):
     if case.get('tracer'):
         return run_tracer_case(case)
+    if case.get('special_targets'):
+        return run_special_targets_case(case)
     hang = constructs(case['amap'], case['pref'])
     if hang:
         return [hang]
